@@ -448,8 +448,15 @@ func c28LinLRU(c *ev.Ctx, r *rand.Rand, caseN int) {
 		for k := 0; k < 5+rr.Intn(4); k++ {
 			key, w := rr.Intn(3), uint(rr.Intn(4))
 			v := (cl+1)*1000 + k
-			hist.Jitter(rr.Intn(1000))
-			switch rr.Intn(10) {
+			op := rr.Intn(10)
+			if caseN%3 == 0 {
+				// contention mix: every client fires check-then-act operations at the same few absent keys
+				op = []int{7, 7, 8, 6, 7, 8, 3, 7, 8, 6}[op]
+				key = rr.Intn(2)
+			} else {
+				hist.Jitter(rr.Intn(1000))
+			}
+			switch op {
 			case 0, 1, 2:
 				rec.Do(cl, c28in{Op: "add", K: key, V: v, W: w}, func() interface{} { return c28lout{N: cache.Add(key, v, w)} })
 			case 3:
